@@ -441,7 +441,7 @@ def discoRun (j : Json) : Except String Json := do
     | .ok "reboot" => pure Disco.Ev.reboot
     | .ok "request-bad-reply" => pure Disco.Ev.requestBadReply
     | _ => throw "bad event"
-  let (_, trace) := Disco.run ctx (Disco.init eid (← getNat j "boots") (← getNat j "start")) evs
+  let (_, trace) := Disco.run ((j.getObjValAs? Bool "auth").toOption.getD true) ctx (Disco.init eid (← getNat j "boots") (← getNat j "start")) evs
   let wj : Disco.Wire → Json
     | .probe => toJson (#[toJson "probe"] : Array Json)
     | .req e c b t iw => toJson (#[toJson "req", toJson (toHex e), toJson (toHex c), toJson b, toJson t, toJson iw] : Array Json)
